@@ -1,6 +1,7 @@
-(* C15 — proofs.  Part 1: algebra of aggregating association maps. *)
+(* C15 — proofs (definitions used by the statements: Spec.v).
+   Part 1: algebra of aggregating association maps. *)
 From Coq Require Import List ZArith Bool Lia Permutation.
-From Verif Require Import C15.Model.
+From Verif Require Import C15.Model C15.Spec.
 Import ListNotations.
 Open Scope Z_scope.
 
@@ -17,9 +18,6 @@ Proof.
   apply Z.eqb_eq in H1. apply IH in H2. now subst.
 Qed.
 
-(* a boolean equality that decides Leibniz equality *)
-Definition eqdec {A : Type} (e : A -> A -> bool) : Prop :=
-  (forall a, e a a = true) /\ (forall a b, e a b = true -> a = b).
 
 Lemma eqdec_str : eqdec str_eqb.
 Proof. split; [exact str_eqb_refl | exact str_eqb_eq]. Qed.
@@ -71,18 +69,12 @@ Section Oplus.
   Hypothesis op_comm : forall a b, op a b = op b a.
   Hypothesis op_assoc : forall a b c, op a (op b c) = op (op a b) c.
 
-  Definition oplus (x y : option V) : option V :=
-    match x, y with
-    | Some a, Some b => Some (op a b)
-    | Some a, None => Some a
-    | None, y => y
-    end.
 
-  Lemma oplus_None_r x : oplus x None = x.
+  Lemma oplus_None_r x : oplus op x None = x.
   Proof. now destruct x. Qed.
-  Lemma oplus_comm x y : oplus x y = oplus y x.
+  Lemma oplus_comm x y : oplus op x y = oplus op y x.
   Proof. destruct x, y; cbn; try reflexivity. now rewrite op_comm. Qed.
-  Lemma oplus_assoc x y z : oplus x (oplus y z) = oplus (oplus x y) z.
+  Lemma oplus_assoc x y z : oplus op x (oplus op y z) = oplus op (oplus op x y) z.
   Proof. destruct x, y, z; cbn; try reflexivity. now rewrite op_assoc. Qed.
 End Oplus.
 
@@ -98,16 +90,9 @@ Section Facts.
   Hypothesis op_assoc : forall a b c, op a (op b c) = op (op a b) c.
 
   Notation "x (+) y" := (oplus op x y) (at level 50, left associativity).
+  Local Notation psum := (@C15.Spec.psum K V op).
 
-  Definition pick (p : K -> bool) (k : K) (v : V) : option V :=
-    if p k then Some v else None.
 
-  (* the combination of all values filed under a key satisfying p *)
-  Fixpoint psum (p : K -> bool) (l : list (K * V)) : option V :=
-    match l with
-    | [] => None
-    | e :: t => pick p (fst e) (snd e) (+) psum p t
-    end.
 
   Lemma psum_app p l1 l2 : psum p (l1 ++ l2) = psum p l1 (+) psum p l2.
   Proof.
@@ -311,8 +296,6 @@ Proof. lia. Qed.
 Lemma Zmax_assoc' a b c : Z.max a (Z.max b c) = Z.max (Z.max a b) c.
 Proof. lia. Qed.
 
-(* flooring a millisecond stamp to its whole second *)
-Definition floor_s (ms : Z) : Z := rtime (ptime ms).
 
 Lemma floor_s_le ms : floor_s ms <= ms.
 Proof. unfold floor_s, rtime, ptime. pose proof (Z.mul_div_le ms 1000). lia. Qed.
@@ -352,10 +335,6 @@ Proof.
   - pose proof (floor_s_mono _ _ H). now rewrite !Z.max_l.
 Qed.
 
-(* what a disk round trip does to an aggregate *)
-Definition fl (a : sagg) : sagg :=
-  {| a_count := a_count a; a_min := floor_s (a_min a); a_max := floor_s (a_max a);
-     a_dsum := a_dsum a; a_tsum := a_tsum a |}.
 
 Lemma rval_pval a : rval (pval a) = fl a.
 Proof. reflexivity. Qed.
@@ -369,7 +348,6 @@ Proof. reflexivity. Qed.
 (* ---------------------------------------------------------------------- *)
 (* Part 3: the persisted endpoint key *)
 
-Definition nocolon (s : str) : Prop := Forall (fun c => c <> 58) s.
 
 Lemma split_delim_pkey m u :
   nocolon m -> split_delim (m ++ delim ++ u) = Some (m, u).
@@ -439,26 +417,7 @@ Section RoundTrip.
   Qed.
 End RoundTrip.
 
-Definition wfm {K V : Type} (P : K -> Prop) (m : list (K * V)) : Prop :=
-  NoDup (map fst m) /\ Forall P (map fst m).
 
-Definition kE_ok (k : key) : Prop := nocolon (fst k).
-Definition kES_ok (ks : key * Z) : Prop := nocolon (fst (fst ks)).
-Definition kC_ok (ck : str * key) : Prop := nocolon (fst (snd ck)).
-Definition kCS_ok (cks : (str * key) * Z) : Prop := nocolon (fst (snd (fst cks))).
-
-(* distinct keys everywhere, and no ':' in any method *)
-Definition wf_state (s : state) : Prop :=
-  wfm kE_ok (sE s) /\ wfm kES_ok (sES s) /\ wfm kC_ok (sC s) /\ wfm kCS_ok (sCS s)
-  /\ NoDup (map fst (sI s)).
-
-(* the effect of a disk round trip: the time fields lose their milliseconds *)
-Definition fl_state (s : state) : state :=
-  {| sE := map (fun e => (fst e, fl (snd e))) (sE s);
-     sES := sES s;
-     sC := map (fun e => (fst e, fl (snd e))) (sC s);
-     sCS := sCS s;
-     sI := map (fun e => (fst e, floor_s (snd e))) (sI s) |}.
 
 Lemma map_id_ext {A : Type} (f : A -> A) (l : list A) :
   (forall x, f x = x) -> map f l = l.
@@ -528,7 +487,6 @@ Section WfmFacts.
   Proof. unfold wfm. rewrite map_map. cbn [fst]. tauto. Qed.
 End WfmFacts.
 
-Definition recs_ok (rs : list rec) : Prop := Forall (fun r => nocolon (r_method r)) rs.
 
 Lemma recs_ok_accepted rs : recs_ok rs -> recs_ok (accepted rs).
 Proof.
@@ -622,7 +580,6 @@ Proof.
   - apply wf_extract. now apply recs_ok_accepted.
 Qed.
 
-Definition batches_ok (bs : list batch) : Prop := Forall (fun b => recs_ok (b_recs b)) bs.
 
 Lemma wf_run_from bs : forall s,
   wf_state s -> batches_ok bs -> wf_state (run_from s bs).
@@ -631,4 +588,892 @@ Proof.
   induction bs as [|b bs IH]; intros s H Hb; cbn; [assumption|].
   inversion Hb; subst. apply IH; [|assumption].
   rewrite step_step' by assumption. now apply wf_step'.
+Qed.
+
+
+(* two association lists give the same combined value on every set of keys *)
+Definition seq {K V : Type} (op : V -> V -> V) (m L : list (K * V)) : Prop :=
+  forall p, psum op p m = psum op p L.
+
+Section Seq.
+  Context {K V : Type}.
+  Variable keqb : K -> K -> bool.
+  Variable op : V -> V -> V.
+  Hypothesis keq : eqdec keqb.
+  Hypothesis op_comm : forall a b, op a b = op b a.
+  Hypothesis op_assoc : forall a b c, op a (op b c) = op (op a b) c.
+
+  Lemma seq_map_val (g : V -> V) (m L : list (K * V)) :
+    (forall a b, g (op a b) = op (g a) (g b)) -> seq op m L ->
+    seq op (map (fun e => (fst e, g (snd e))) m) (map (fun e => (fst e, g (snd e))) L).
+  Proof. intros Hg H p. rewrite !psum_map_val by assumption. now rewrite H. Qed.
+
+  Lemma seq_rekey (f : K -> K) (m L : list (K * V)) :
+    seq op m L -> seq op (rekey keqb op f m) (map (fun e => (f (fst e), snd e)) L).
+  Proof.
+    intros H p. rewrite psum_rekey by assumption. rewrite psum_map_key. apply H.
+  Qed.
+
+  Lemma seq_combine (m L c : list (K * V)) :
+    seq op m L -> seq op (mcombine keqb op m (of_list keqb op c)) (L ++ c).
+  Proof.
+    intros H p. rewrite psum_mcombine, psum_of_list by assumption.
+    rewrite psum_app by assumption. now rewrite H.
+  Qed.
+End Seq.
+
+Definition sem (s : state) (L : list lrec) : Prop :=
+  seq acomb (sE s) (map viewE L) /\ seq Z.add (sES s) (map viewES L) /\
+  seq acomb (sC s) (map viewC L) /\ seq Z.add (sCS s) (map viewCS L) /\
+  seq Z.max (sI s) (map viewI L).
+
+Lemma sem_empty : sem empty_state [].
+Proof. unfold sem, seq; cbn. repeat split. Qed.
+
+Lemma sem_fl s L : sem s L -> sem (fl_state s) (map floor_l L).
+Proof.
+  intros (HE & HES & HC & HCS & HI).
+  unfold sem, fl_state; cbn [sE sES sC sCS sI].
+  refine (conj _ (conj _ (conj _ (conj _ _)))).
+  - rewrite map_map.
+    replace (map (fun x => viewE (floor_l x)) L)
+      with (map (fun e => (fst e, fl (snd e))) (map viewE L)) by now rewrite map_map.
+    apply seq_map_val; [exact fl_acomb | assumption].
+  - rewrite map_map. exact HES.
+  - rewrite map_map.
+    replace (map (fun x => viewC (floor_l x)) L)
+      with (map (fun e => (fst e, fl (snd e))) (map viewC L)) by now rewrite map_map.
+    apply seq_map_val; [exact fl_acomb | assumption].
+  - rewrite map_map. exact HCS.
+  - rewrite map_map.
+    replace (map (fun x => viewI (floor_l x)) L)
+      with (map (fun e => (fst e, floor_s (snd e))) (map viewI L)) by now rewrite map_map.
+    apply seq_map_val; [exact floor_s_max | assumption].
+Qed.
+
+Lemma sem_rekey rkE rkC s L :
+  sem s L -> sem (rekey_state rkE rkC s) (map (relabel rkE rkC) L).
+Proof.
+  intros (HE & HES & HC & HCS & HI).
+  unfold sem, rekey_state; cbn [sE sES sC sCS sI].
+  refine (conj _ (conj _ (conj _ (conj _ _)))).
+  - rewrite map_map.
+    replace (map (fun x => viewE (relabel rkE rkC x)) L)
+      with (map (fun e => (on_url rkE (fst e), snd e)) (map viewE L)) by now rewrite map_map.
+    apply seq_rekey; [exact eqdec_key | exact acomb_comm | exact acomb_assoc | assumption].
+  - rewrite map_map.
+    replace (map (fun x => viewES (relabel rkE rkC x)) L)
+      with (map (fun e => ((on_url rkE (fst (fst e)), snd (fst e)), snd e)) (map viewES L))
+      by now rewrite map_map.
+    apply (seq_rekey skey_eqb Z.add eqdec_skey Z.add_comm Zadd_assoc'
+             (fun ks => (on_url rkE (fst ks), snd ks))). assumption.
+  - rewrite map_map.
+    replace (map (fun x => viewC (relabel rkE rkC x)) L)
+      with (map (fun e => ((fst (fst e), on_url rkC (snd (fst e))), snd e)) (map viewC L))
+      by now rewrite map_map.
+    apply (seq_rekey ckey_eqb acomb eqdec_ckey acomb_comm acomb_assoc
+             (fun ck => (fst ck, on_url rkC (snd ck)))). assumption.
+  - rewrite map_map.
+    replace (map (fun x => viewCS (relabel rkE rkC x)) L)
+      with (map (fun e => (((fst (fst (fst e)), on_url rkC (snd (fst (fst e)))), snd (fst e)), snd e))
+                (map viewCS L)) by now rewrite map_map.
+    apply (seq_rekey cskey_eqb Z.add eqdec_cskey Z.add_comm Zadd_assoc'
+             (fun cks => ((fst (fst cks), on_url rkC (snd (fst cks))), snd cks))). assumption.
+  - rewrite map_map. exact HI.
+Qed.
+
+Lemma sem_combine_extract nxE nxC rs s L :
+  sem s L ->
+  sem (combine_state s (extract nxE nxC rs)) (L ++ map (fresh nxE nxC) rs).
+Proof.
+  intros (HE & HES & HC & HCS & HI).
+  unfold sem, combine_state, extract; cbn [sE sES sC sCS sI].
+  rewrite !map_app, !map_map.
+  refine (conj _ (conj _ (conj _ (conj _ _)))).
+  - apply (seq_combine key_eqb acomb eqdec_key acomb_comm acomb_assoc); assumption.
+  - apply (seq_combine skey_eqb Z.add eqdec_skey Z.add_comm Zadd_assoc'); assumption.
+  - apply (seq_combine ckey_eqb acomb eqdec_ckey acomb_comm acomb_assoc); assumption.
+  - apply (seq_combine cskey_eqb Z.add eqdec_cskey Z.add_comm Zadd_assoc'); assumption.
+  - apply (seq_combine key_eqb Z.max eqdec_key Z.max_comm Zmax_assoc'); assumption.
+Qed.
+
+Lemma sem_step' s L b : sem s L -> sem (step' s b) (lstep L b).
+Proof.
+  intros H. unfold step', lstep.
+  assert (H0 : sem (if b_restart b then fl_state s else s)
+                   (if b_restart b then map floor_l L else L)).
+  { destruct (b_restart b); [now apply sem_fl | assumption]. }
+  destruct (b_recs b) as [|r rs]; [assumption|].
+  apply sem_combine_extract.
+  destruct (b_conv b); [now apply sem_rekey | assumption].
+Qed.
+
+(* the pipeline refines the ledger *)
+Lemma refinement_from bs : forall s L,
+  wf_state s -> batches_ok bs -> sem s L ->
+  sem (run_from s bs) (ledger_from L bs).
+Proof.
+  unfold run_from, ledger_from.
+  induction bs as [|b bs IH]; intros s L W Hb H; cbn; [assumption|].
+  inversion Hb; subst.
+  rewrite step_step' by assumption.
+  apply IH; [now apply wf_step' | assumption | now apply sem_step'].
+Qed.
+
+Lemma refinement bs : batches_ok bs -> sem (run bs) (ledger bs).
+Proof.
+  intros H. apply refinement_from; [exact wf_empty | assumption | exact sem_empty].
+Qed.
+
+Lemma wf_run bs : batches_ok bs -> wf_state (run bs).
+Proof. intros H. apply wf_run_from; [exact wf_empty | assumption]. Qed.
+
+(* ---------------------------------------------------------------------- *)
+(* Part 6: what the ledger contains *)
+
+
+Lemma lstep_recs L b : map l_rec (lstep L b) = map l_rec L ++ accepted (b_recs b).
+Proof.
+  unfold lstep.
+  assert (E0 : map l_rec (if b_restart b then map floor_l L else L) = map l_rec L).
+  { destruct (b_restart b); [|reflexivity]. now rewrite map_map. }
+  destruct (b_recs b) as [|r rs] eqn:E.
+  - cbn. now rewrite app_nil_r.
+  - rewrite map_app, map_map. cbn [l_rec fresh]. rewrite map_id. f_equal.
+    destruct (b_conv b); [|assumption]. now rewrite map_map.
+Qed.
+
+Lemma ledger_from_recs bs : forall L,
+  map l_rec (ledger_from L bs) = map l_rec L ++ all_accepted bs.
+Proof.
+  unfold ledger_from, all_accepted.
+  induction bs as [|b bs IH]; intros L; cbn; [now rewrite app_nil_r|].
+  now rewrite IH, lstep_recs, <- app_assoc.
+Qed.
+
+(* the ledger holds exactly the accepted records, in order *)
+Lemma ledger_recs bs : map l_rec (ledger bs) = all_accepted bs.
+Proof. unfold ledger. now rewrite ledger_from_recs. Qed.
+
+
+Lemma lok_fresh nxE nxC r : lok (fresh nxE nxC r).
+Proof. unfold lok; cbn. pose proof (floor_s_le (r_ts r)). repeat split; lia. Qed.
+
+Lemma lok_relabel rkE rkC l : lok l -> lok (relabel rkE rkC l).
+Proof. unfold lok; cbn. tauto. Qed.
+
+Lemma lok_floor l : lok l -> lok (floor_l l).
+Proof.
+  unfold lok; cbn. intros ([H1 H2] & H). split; [|exact H].
+  split.
+  - rewrite <- (floor_s_idem (r_ts (l_rec l))). now apply floor_s_mono.
+  - pose proof (floor_s_le (l_ts l)). lia.
+Qed.
+
+Lemma Forall_map_in {A B : Type} (P : B -> Prop) (f : A -> B) (l : list A) :
+  (forall a, In a l -> P (f a)) -> Forall P (map f l).
+Proof.
+  intros H. rewrite Forall_forall. intros b Hb.
+  apply in_map_iff in Hb. destruct Hb as [a [<- Ha]]. now apply H.
+Qed.
+
+Lemma lok_lstep L b : Forall lok L -> Forall lok (lstep L b).
+Proof.
+  intros H. unfold lstep.
+  assert (H0 : Forall lok (if b_restart b then map floor_l L else L)).
+  { destruct (b_restart b); [|assumption].
+    apply Forall_map_in. rewrite Forall_forall in H. intros a Ha. now apply lok_floor, H. }
+  destruct (b_recs b) as [|r rs]; [assumption|].
+  apply Forall_app. split.
+  - destruct (b_conv b); [|assumption].
+    apply Forall_map_in. rewrite Forall_forall in H0. intros a Ha. now apply lok_relabel, H0.
+  - apply Forall_map_in. intros a _. apply lok_fresh.
+Qed.
+
+Lemma lok_ledger_from bs : forall L, Forall lok L -> Forall lok (ledger_from L bs).
+Proof.
+  unfold ledger_from. induction bs as [|b bs IH]; intros L H; cbn; [assumption|].
+  now apply IH, lok_lstep.
+Qed.
+
+Lemma lok_ledger bs : Forall lok (ledger bs).
+Proof. apply lok_ledger_from. constructor. Qed.
+
+
+Lemma lexact_ledger_from bs : forall L,
+  no_restart bs -> Forall lexact L -> Forall lexact (ledger_from L bs).
+Proof.
+  unfold ledger_from. induction bs as [|b bs IH]; intros L N H; cbn; [assumption|].
+  inversion N as [|? ? Nb Nbs]; subst. apply IH; [assumption|].
+  unfold lstep. rewrite Nb.
+  destruct (b_recs b) as [|r rs]; [assumption|].
+  apply Forall_app. split.
+  - destruct (b_conv b); [|assumption].
+    apply Forall_map_in. rewrite Forall_forall in H. intros a Ha. exact (H a Ha).
+  - apply Forall_map_in. intros a _. reflexivity.
+Qed.
+
+Lemma lexact_ledger bs : no_restart bs -> Forall lexact (ledger bs).
+Proof. intros N. apply lexact_ledger_from; [assumption | constructor]. Qed.
+
+(* ---------------------------------------------------------------------- *)
+(* Part 7: direct summaries of a group of ledger lines *)
+
+
+Lemma fold_min_swap a b l :
+  fold_right Z.min a (b :: l) = Z.min a (fold_right Z.min b l).
+Proof. induction l as [|c l IH]; cbn in *; lia. Qed.
+
+Lemma fold_max_swap a b l :
+  fold_right Z.max a (b :: l) = Z.max a (fold_right Z.max b l).
+Proof. induction l as [|c l IH]; cbn in *; lia. Qed.
+
+Lemma summary_cons x g :
+  summary (x :: g) = oplus acomb (Some (single_at (l_ts x) (l_rec x))) (summary g).
+Proof.
+  destruct g as [|y g].
+  - cbn. unfold single_at. f_equal. f_equal; lia.
+  - unfold summary at 2. unfold oplus. unfold summary.
+    f_equal. unfold acomb, single_at. cbn [a_count a_min a_max a_dsum a_tsum].
+    f_equal.
+    + cbn [length]. rewrite !Nat2Z.inj_succ. lia.
+    + cbn [map]. apply fold_min_swap.
+    + cbn [map]. apply fold_max_swap.
+Qed.
+
+Lemma psum_summary {K : Type} (view : lrec -> K * sagg) p L :
+  (forall l, snd (view l) = single_at (l_ts l) (l_rec l)) ->
+  psum acomb p (map view L) = summary (filter (fun l => p (fst (view l))) L).
+Proof.
+  intros Hv. induction L as [|x L IH]; cbn; [reflexivity|].
+  rewrite IH. unfold pick. destruct (p (fst (view x))).
+  - rewrite summary_cons, Hv. reflexivity.
+  - reflexivity.
+Qed.
+
+Lemma ocount_succ n : oplus Z.add (Some 1) (ocount n) = ocount (S n).
+Proof.
+  destruct n as [|n]; [reflexivity|].
+  unfold ocount, oplus. f_equal. rewrite (Nat2Z.inj_succ (S n)). lia.
+Qed.
+
+Lemma psum_count {K : Type} (view : lrec -> K * Z) p L :
+  (forall l, snd (view l) = 1) ->
+  psum Z.add p (map view L) = ocount (length (filter (fun l => p (fst (view l))) L)).
+Proof.
+  intros Hv. induction L as [|x L IH]; cbn; [reflexivity|].
+  rewrite IH. unfold pick. destruct (p (fst (view x))).
+  - rewrite Hv. cbn [length]. apply ocount_succ.
+  - reflexivity.
+Qed.
+
+Lemma omax_cons x l : omax (x :: l) = oplus Z.max (Some x) (omax l).
+Proof.
+  destruct l as [|y l]; [reflexivity|].
+  unfold omax, oplus. f_equal. apply fold_max_swap.
+Qed.
+
+Lemma psum_omax p L :
+  psum Z.max p (map viewI L)
+  = omax (map l_ts (filter (fun l => p (icpt_key (l_rec l))) L)).
+Proof.
+  induction L as [|x L IH]; cbn; [reflexivity|].
+  rewrite IH. unfold pick. cbn. destruct (p (icpt_key (l_rec x))).
+  - cbn [map]. now rewrite omax_cons.
+  - reflexivity.
+Qed.
+
+(* the minimum / maximum of a group are attained and are bounds *)
+Lemma fold_min_spec a l :
+  (fold_right Z.min a l <= a /\ Forall (fun x => fold_right Z.min a l <= x) l) /\
+  (fold_right Z.min a l = a \/ In (fold_right Z.min a l) l).
+Proof.
+  induction l as [|b l [[IH1 IH2] IH3]]; cbn.
+  - split; [split; [lia | constructor] | now left].
+  - split; [split|].
+    + lia.
+    + constructor; [lia|]. eapply Forall_impl; [|exact IH2]. cbn. intros; lia.
+    + destruct (Z.min_spec b (fold_right Z.min a l)) as [[_ E] | [_ E]]; rewrite E.
+      * right. now left.
+      * destruct IH3; [now left | right; now right].
+Qed.
+
+Lemma fold_max_spec a l :
+  (a <= fold_right Z.max a l /\ Forall (fun x => x <= fold_right Z.max a l) l) /\
+  (fold_right Z.max a l = a \/ In (fold_right Z.max a l) l).
+Proof.
+  induction l as [|b l [[IH1 IH2] IH3]]; cbn.
+  - split; [split; [lia | constructor] | now left].
+  - split; [split|].
+    + lia.
+    + constructor; [lia|]. eapply Forall_impl; [|exact IH2]. cbn. intros; lia.
+    + destruct (Z.max_spec b (fold_right Z.max a l)) as [[_ E] | [_ E]]; rewrite E.
+      * destruct IH3; [now left | right; now right].
+      * right. now left.
+Qed.
+
+Lemma summary_extremes g a :
+  summary g = Some a ->
+  (forall l, In l g -> a_min a <= l_ts l <= a_max a) /\
+  (exists l, In l g /\ a_min a = l_ts l) /\
+  (exists l, In l g /\ a_max a = l_ts l).
+Proof.
+  destruct g as [|x t]; [discriminate|]. intros H. inversion H; subst; clear H.
+  cbn [a_min a_max].
+  destruct (fold_min_spec (l_ts x) (map l_ts t)) as [[m1 m2] m3].
+  destruct (fold_max_spec (l_ts x) (map l_ts t)) as [[M1 M2] M3].
+  rewrite Forall_forall in m2, M2.
+  split; [|split].
+  - intros l [<- | Hl]; [lia|].
+    assert (In (l_ts l) (map l_ts t)) by now apply in_map.
+    split; [now apply m2 | now apply M2].
+  - destruct m3 as [E | Hin].
+    + exists x. split; [now left | assumption].
+    + apply in_map_iff in Hin. destruct Hin as [l [E Hl]].
+      exists l. split; [now right | now symmetry].
+  - destruct M3 as [E | Hin].
+    + exists x. split; [now left | assumption].
+    + apply in_map_iff in Hin. destruct Hin as [l [E Hl]].
+      exists l. split; [now right | now symmetry].
+Qed.
+
+(* ---------------------------------------------------------------------- *)
+(* Part 8: every entry of the final state, read off the ledger *)
+
+Section Final.
+  Variable bs : list batch.
+  Hypothesis Hok : batches_ok bs.
+
+  Let s := run bs.
+  Let L := ledger bs.
+
+  Lemma final_E k :
+    mfind key_eqb k (sE s) = summary (filter (fun l => key_eqb (l_ekey l) k) L).
+  Proof.
+    destruct (wf_run bs Hok) as ([ND _] & _).
+    destruct (refinement bs Hok) as (HE & _).
+    rewrite (mfind_psum key_eqb acomb eqdec_key) by exact ND.
+    rewrite HE. now rewrite (psum_summary viewE).
+  Qed.
+
+  Lemma final_ES k st :
+    mfind skey_eqb (k, st) (sES s)
+    = ocount (length (filter (fun l => key_eqb (l_ekey l) k && (r_status (l_rec l) =? st)) L)).
+  Proof.
+    destruct (wf_run bs Hok) as (_ & [ND _] & _).
+    destruct (refinement bs Hok) as (_ & HES & _).
+    rewrite (mfind_psum skey_eqb Z.add eqdec_skey) by exact ND.
+    rewrite HES. now rewrite (psum_count viewES).
+  Qed.
+
+  Lemma final_C ck :
+    mfind ckey_eqb ck (sC s) = summary (filter (fun l => ckey_eqb (l_ckey l) ck) L).
+  Proof.
+    destruct (wf_run bs Hok) as (_ & _ & [ND _] & _).
+    destruct (refinement bs Hok) as (_ & _ & HC & _).
+    rewrite (mfind_psum ckey_eqb acomb eqdec_ckey) by exact ND.
+    rewrite HC. now rewrite (psum_summary viewC).
+  Qed.
+
+  Lemma final_CS ck st :
+    mfind cskey_eqb (ck, st) (sCS s)
+    = ocount (length (filter (fun l => ckey_eqb (l_ckey l) ck && (r_status (l_rec l) =? st)) L)).
+  Proof.
+    destruct (wf_run bs Hok) as (_ & _ & _ & [ND _] & _).
+    destruct (refinement bs Hok) as (_ & _ & _ & HCS & _).
+    rewrite (mfind_psum cskey_eqb Z.add eqdec_cskey) by exact ND.
+    rewrite HCS. now rewrite (psum_count viewCS).
+  Qed.
+
+  Lemma final_I i :
+    mfind key_eqb i (sI s)
+    = omax (map l_ts (filter (fun l => key_eqb (icpt_key (l_rec l)) i) L)).
+  Proof.
+    destruct (wf_run bs Hok) as (_ & _ & _ & _ & ND).
+    destruct (refinement bs Hok) as (_ & _ & _ & _ & HI).
+    rewrite (mfind_psum key_eqb Z.max eqdec_key) by exact ND.
+    rewrite HI. now rewrite psum_omax.
+  Qed.
+End Final.
+
+(* ---------------------------------------------------------------------- *)
+(* Part 9: totals *)
+
+
+Lemma count_where_psum {K : Type} (p : K -> bool) m :
+  count_where p m = cnt_of (psum acomb p m).
+Proof.
+  unfold count_where. induction m as [|e m IH]; [reflexivity|].
+  cbn [fold_right psum]. rewrite IH. unfold pick.
+  destruct (p (fst e)), (psum acomb p m); cbn; lia.
+Qed.
+
+Lemma dsum_where_psum {K : Type} (p : K -> bool) m :
+  dsum_where p m = dsum_of (psum acomb p m).
+Proof.
+  unfold dsum_where. induction m as [|e m IH]; [reflexivity|].
+  cbn [fold_right psum]. rewrite IH. unfold pick.
+  destruct (p (fst e)), (psum acomb p m); cbn; lia.
+Qed.
+
+Lemma tsum_where_psum {K : Type} (p : K -> bool) m :
+  tsum_where p m = tsum_of (psum acomb p m).
+Proof.
+  unfold tsum_where. induction m as [|e m IH]; [reflexivity|].
+  cbn [fold_right psum]. rewrite IH. unfold pick.
+  destruct (p (fst e)), (psum acomb p m); cbn; lia.
+Qed.
+
+Lemma sum_where_psum {K : Type} (p : K -> bool) (m : list (K * Z)) :
+  sum_where p m = zof (psum Z.add p m).
+Proof.
+  unfold sum_where. induction m as [|e m IH]; [reflexivity|].
+  cbn [fold_right psum]. rewrite IH. unfold pick.
+  destruct (p (fst e)), (psum Z.add p m); cbn; lia.
+Qed.
+
+Lemma cnt_summary g : cnt_of (summary g) = Z.of_nat (length g).
+Proof. now destruct g. Qed.
+Lemma dsum_summary g :
+  dsum_of (summary g) = fold_right Z.add 0 (map (fun l => r_dur (l_rec l)) g).
+Proof. now destruct g. Qed.
+Lemma tsum_summary g :
+  tsum_of (summary g) = fold_right Z.add 0 (map (fun l => r_tdur (l_rec l)) g).
+Proof. now destruct g. Qed.
+Lemma zof_ocount n : zof (ocount n) = Z.of_nat n.
+Proof. now destruct n. Qed.
+
+Lemma filter_map_comm {A B : Type} (f : A -> B) (q : B -> bool) (l : list A) :
+  filter q (map f l) = map f (filter (fun a => q (f a)) l).
+Proof.
+  induction l as [|a l IH]; cbn; [reflexivity|].
+  destruct (q (f a)); cbn; now rewrite IH.
+Qed.
+
+Lemma filter_everywhere {A : Type} (l : list A) : filter (fun _ => true) l = l.
+Proof. induction l as [|a l IH]; cbn; [reflexivity | now rewrite IH]. Qed.
+
+Lemma filter_ext_in' {A : Type} (f g : A -> bool) (l : list A) :
+  (forall a, In a l -> f a = g a) -> filter f l = filter g l.
+Proof.
+  induction l as [|a l IH]; intros H; cbn; [reflexivity|].
+  rewrite (H a) by now left. rewrite IH by (intros x Hx; apply H; now right). reflexivity.
+Qed.
+
+Section Totals.
+  Variable bs : list batch.
+  Hypothesis Hok : batches_ok bs.
+
+  Let s := run bs.
+  Let L := ledger bs.
+
+
+  Lemma nrec_ledger q : nrec bs q = Z.of_nat (length (filter (fun l => q (l_rec l)) L)).
+  Proof.
+    unfold nrec. rewrite <- (ledger_recs bs). fold L.
+    now rewrite filter_map_comm, map_length.
+  Qed.
+
+  Lemma total_E p :
+    count_where p (sE s) = Z.of_nat (length (filter (fun l => p (l_ekey l)) L)).
+  Proof.
+    destruct (refinement bs Hok) as (HE & _).
+    rewrite count_where_psum, HE, (psum_summary viewE) by reflexivity. apply cnt_summary.
+  Qed.
+
+  Lemma total_C p :
+    count_where p (sC s) = Z.of_nat (length (filter (fun l => p (l_ckey l)) L)).
+  Proof.
+    destruct (refinement bs Hok) as (_ & _ & HC & _).
+    rewrite count_where_psum, HC, (psum_summary viewC) by reflexivity. apply cnt_summary.
+  Qed.
+
+  Lemma total_ES p :
+    sum_where p (sES s)
+    = Z.of_nat (length (filter (fun l => p (l_ekey l, r_status (l_rec l))) L)).
+  Proof.
+    destruct (refinement bs Hok) as (_ & HES & _).
+    rewrite sum_where_psum, HES, (psum_count viewES) by reflexivity. apply zof_ocount.
+  Qed.
+
+  Lemma total_CS p :
+    sum_where p (sCS s)
+    = Z.of_nat (length (filter (fun l => p (l_ckey l, r_status (l_rec l))) L)).
+  Proof.
+    destruct (refinement bs Hok) as (_ & _ & _ & HCS & _).
+    rewrite sum_where_psum, HCS, (psum_count viewCS) by reflexivity. apply zof_ocount.
+  Qed.
+
+  (* the sum of all request counts is the number of non-internal records *)
+  Lemma conservation_count : count_where everywhere (sE s) = nrec bs everywhere.
+  Proof. rewrite total_E, nrec_ledger. reflexivity. Qed.
+
+  Lemma conservation_count_C : count_where everywhere (sC s) = nrec bs everywhere.
+  Proof. rewrite total_C, nrec_ledger. reflexivity. Qed.
+
+  (* ... per method *)
+  Lemma conservation_method m :
+    count_where (fun k => str_eqb (fst k) m) (sE s) = nrec bs (fun r => str_eqb (r_method r) m).
+  Proof.
+    rewrite total_E, nrec_ledger. do 2 f_equal. apply filter_ext_in'.
+    intros l Hl. pose proof (lok_ledger bs) as H. rewrite Forall_forall in H.
+    destruct (H l Hl) as (_ & E & _). now rewrite E.
+  Qed.
+
+  (* ... per consumer tag *)
+  Lemma conservation_tag t :
+    count_where (fun ck => str_eqb (fst ck) t) (sC s) = nrec bs (fun r => str_eqb (cons_tag r) t).
+  Proof.
+    rewrite total_C, nrec_ledger. do 2 f_equal. apply filter_ext_in'.
+    intros l Hl. pose proof (lok_ledger bs) as H. rewrite Forall_forall in H.
+    destruct (H l Hl) as (_ & _ & E & _). now rewrite E.
+  Qed.
+
+  (* per endpoint: request count = sum of its status-code counts *)
+  Lemma count_is_status_sum k :
+    cnt_of (mfind key_eqb k (sE s))
+    = sum_where (fun ks => key_eqb (fst ks) k) (sES s).
+  Proof.
+    unfold s. rewrite (final_E bs Hok), cnt_summary. fold s. rewrite total_ES. reflexivity.
+  Qed.
+
+  Lemma count_is_status_sum_C ck :
+    cnt_of (mfind ckey_eqb ck (sC s))
+    = sum_where (fun cks => ckey_eqb (fst cks) ck) (sCS s).
+  Proof.
+    unfold s. rewrite (final_C bs Hok), cnt_summary. fold s. rewrite total_CS. reflexivity.
+  Qed.
+
+  (* per status code: the counts over all endpoints add up to the number of
+     records with that status *)
+  Lemma conservation_status st :
+    sum_where (fun ks => snd ks =? st) (sES s) = nrec bs (fun r => r_status r =? st).
+  Proof. rewrite total_ES, nrec_ledger. reflexivity. Qed.
+
+  Lemma conservation_status_C st :
+    sum_where (fun cks => snd cks =? st) (sCS s) = nrec bs (fun r => r_status r =? st).
+  Proof. rewrite total_CS, nrec_ledger. reflexivity. Qed.
+
+  (* durations: the sums are exact, so mean = sum / count is the true mean *)
+  Lemma conservation_durations :
+    dsum_where everywhere (sE s) = fold_right Z.add 0 (map r_dur (all_accepted bs)) /\
+    tsum_where everywhere (sE s) = fold_right Z.add 0 (map r_tdur (all_accepted bs)).
+  Proof.
+    destruct (refinement bs Hok) as (HE & _).
+    rewrite dsum_where_psum, tsum_where_psum, !HE, !(psum_summary viewE) by reflexivity.
+    cbn [fst viewE everywhere]. rewrite filter_everywhere.
+    rewrite dsum_summary, tsum_summary. rewrite <- (ledger_recs bs), !map_map. split; reflexivity.
+  Qed.
+
+  Lemma agg_total_E : agg_total (sE s) = summary L.
+  Proof.
+    destruct (refinement bs Hok) as (HE & _).
+    unfold agg_total. rewrite HE, (psum_summary viewE) by reflexivity.
+    cbn [everywhere]. now rewrite filter_everywhere.
+  Qed.
+End Totals.
+
+(* extreme timestamps of a group of ledger lines, in terms of the records *)
+Lemma group_extremes g a :
+  Forall lok g -> summary g = Some a ->
+  (forall l, In l g -> a_min a <= r_ts (l_rec l) /\ floor_s (r_ts (l_rec l)) <= a_max a) /\
+  (exists l, In l g /\ floor_s (r_ts (l_rec l)) <= a_min a) /\
+  (exists l, In l g /\ a_max a <= r_ts (l_rec l)).
+Proof.
+  intros Hg Hs. rewrite Forall_forall in Hg.
+  destruct (summary_extremes g a Hs) as (B & (l1 & I1 & E1) & (l2 & I2 & E2)).
+  split; [|split].
+  - intros l Hl. destruct (Hg l Hl) as ([? ?] & _). pose proof (B l Hl). lia.
+  - exists l1. split; [assumption|]. destruct (Hg l1 I1) as ([? ?] & _). lia.
+  - exists l2. split; [assumption|]. destruct (Hg l2 I2) as ([? ?] & _). lia.
+Qed.
+
+Lemma group_extremes_exact g a :
+  Forall lexact g -> summary g = Some a ->
+  (forall l, In l g -> a_min a <= r_ts (l_rec l) <= a_max a) /\
+  (exists l, In l g /\ a_min a = r_ts (l_rec l)) /\
+  (exists l, In l g /\ a_max a = r_ts (l_rec l)).
+Proof.
+  intros Hg Hs. rewrite Forall_forall in Hg.
+  destruct (summary_extremes g a Hs) as (B & (l1 & I1 & E1) & (l2 & I2 & E2)).
+  split; [|split].
+  - intros l Hl. rewrite <- (Hg l Hl). now apply B.
+  - exists l1. split; [assumption|]. now rewrite <- (Hg l1 I1).
+  - exists l2. split; [assumption|]. now rewrite <- (Hg l2 I2).
+Qed.
+
+Lemma Forall_filter {A : Type} (P : A -> Prop) (f : A -> bool) (l : list A) :
+  Forall P l -> Forall P (filter f l).
+Proof.
+  rewrite !Forall_forall. intros H a Ha. apply filter_In in Ha. now apply H.
+Qed.
+
+(* ---------------------------------------------------------------------- *)
+(* Part 10: equivalence of states, homomorphism, batch invariance *)
+
+
+Definition nodup_state (s : state) : Prop :=
+  NoDup (map fst (sE s)) /\ NoDup (map fst (sES s)) /\ NoDup (map fst (sC s)) /\
+  NoDup (map fst (sCS s)) /\ NoDup (map fst (sI s)).
+
+Lemma wf_nodup s : wf_state s -> nodup_state s.
+Proof. intros ([? _] & [? _] & [? _] & [? _] & ?). repeat split; assumption. Qed.
+
+Lemma nodup_extract nxE nxC rs : nodup_state (extract nxE nxC rs).
+Proof.
+  unfold nodup_state, extract; cbn [sE sES sC sCS sI].
+  refine (conj _ (conj _ (conj _ (conj _ _)))); apply NoDup_of_list;
+    first [exact eqdec_key | exact eqdec_skey | exact eqdec_ckey | exact eqdec_cskey].
+Qed.
+
+Lemma nodup_combine a b : nodup_state a -> nodup_state (combine_state a b).
+Proof.
+  intros (H1 & H2 & H3 & H4 & H5).
+  unfold nodup_state, combine_state; cbn [sE sES sC sCS sI].
+  refine (conj _ (conj _ (conj _ (conj _ _)))); apply NoDup_mcombine; try assumption;
+    first [exact eqdec_key | exact eqdec_skey | exact eqdec_ckey | exact eqdec_cskey].
+Qed.
+
+(* two states that refine the same ledger are the same finite maps *)
+Lemma sem_equiv s1 s2 L :
+  nodup_state s1 -> nodup_state s2 -> sem s1 L -> sem s2 L -> state_equiv s1 s2.
+Proof.
+  intros (A1 & A2 & A3 & A4 & A5) (B1 & B2 & B3 & B4 & B5)
+         (S1 & S2 & S3 & S4 & S5) (T1 & T2 & T3 & T4 & T5).
+  unfold state_equiv. refine (conj _ (conj _ (conj _ (conj _ _)))); intros k.
+  - rewrite !(mfind_psum key_eqb acomb eqdec_key) by assumption. now rewrite S1, T1.
+  - rewrite !(mfind_psum skey_eqb Z.add eqdec_skey) by assumption. now rewrite S2, T2.
+  - rewrite !(mfind_psum ckey_eqb acomb eqdec_ckey) by assumption. now rewrite S3, T3.
+  - rewrite !(mfind_psum cskey_eqb Z.add eqdec_cskey) by assumption. now rewrite S4, T4.
+  - rewrite !(mfind_psum key_eqb Z.max eqdec_key) by assumption. now rewrite S5, T5.
+Qed.
+
+Lemma sem_extract nxE nxC rs : sem (extract nxE nxC rs) (map (fresh nxE nxC) rs).
+Proof.
+  unfold sem, extract, seq; cbn [sE sES sC sCS sI]. rewrite !map_map.
+  refine (conj _ (conj _ (conj _ (conj _ _)))); intros p.
+  - now rewrite (psum_of_list key_eqb acomb eqdec_key acomb_comm acomb_assoc).
+  - now rewrite (psum_of_list skey_eqb Z.add eqdec_skey Z.add_comm Zadd_assoc').
+  - now rewrite (psum_of_list ckey_eqb acomb eqdec_ckey acomb_comm acomb_assoc).
+  - now rewrite (psum_of_list cskey_eqb Z.add eqdec_cskey Z.add_comm Zadd_assoc').
+  - now rewrite (psum_of_list key_eqb Z.max eqdec_key Z.max_comm Zmax_assoc').
+Qed.
+
+(* extraction is a homomorphism from concatenation to Combine *)
+Lemma homomorphism nxE nxC xs ys :
+  state_equiv (extract nxE nxC (xs ++ ys))
+              (combine_state (extract nxE nxC xs) (extract nxE nxC ys)).
+Proof.
+  apply (sem_equiv _ _ (map (fresh nxE nxC) (xs ++ ys))).
+  - apply nodup_extract.
+  - apply nodup_combine, nodup_extract.
+  - apply sem_extract.
+  - rewrite map_app. apply sem_combine_extract, sem_extract.
+Qed.
+
+(* ---- ledgers that agree on everything but the clock ---- *)
+
+
+Lemma strip_exact L1 : forall L2,
+  map strip L1 = map strip L2 -> Forall lexact L1 -> Forall lexact L2 -> L1 = L2.
+Proof.
+  induction L1 as [|x L1 IH]; intros [|y L2] E H1 H2; try discriminate; [reflexivity|].
+  cbn [map] in E. injection E as Er Ee Ec EL.
+  inversion H1 as [|? ? Hx H1']; inversion H2 as [|? ? Hy H2']; subst.
+  f_equal; [|now apply IH].
+  unfold lexact in Hx, Hy.
+  destruct x, y; cbn in *. subst. reflexivity.
+Qed.
+
+Lemma floor_of_lok l : lok l -> floor_s (l_ts l) = floor_s (r_ts (l_rec l)).
+Proof.
+  intros ([H1 H2] & _).
+  pose proof (floor_s_mono _ _ H1) as A. pose proof (floor_s_mono _ _ H2) as B.
+  rewrite floor_s_idem in A. lia.
+Qed.
+
+Lemma strip_floor L1 : forall L2,
+  map strip L1 = map strip L2 -> Forall lok L1 -> Forall lok L2 ->
+  map floor_l L1 = map floor_l L2.
+Proof.
+  induction L1 as [|x L1 IH]; intros [|y L2] E H1 H2; try discriminate; [reflexivity|].
+  cbn [map] in E. injection E as Er Ee Ec EL.
+  inversion H1 as [|? ? Hx H1']; inversion H2 as [|? ? Hy H2']; subst.
+  cbn [map]. f_equal; [|now apply IH].
+  unfold floor_l. rewrite (floor_of_lok x Hx), (floor_of_lok y Hy).
+  now rewrite Er, Ee, Ec.
+Qed.
+
+Lemma option_map_oplus_fl x y :
+  option_map fl (oplus acomb x y) = oplus acomb (option_map fl x) (option_map fl y).
+Proof. destruct x, y; cbn; try reflexivity. now rewrite fl_acomb. Qed.
+
+Lemma fl_summary g : option_map fl (summary g) = summary (map floor_l g).
+Proof.
+  induction g as [|x g IH]; [reflexivity|].
+  cbn [map]. rewrite !summary_cons, option_map_oplus_fl, IH. reflexivity.
+Qed.
+
+Lemma floor_omax l : option_map floor_s (omax l) = omax (map floor_s l).
+Proof.
+  induction l as [|x l IH]; [reflexivity|].
+  cbn [map]. rewrite !omax_cons, <- IH.
+  destruct (omax l); cbn; [|reflexivity]. now rewrite floor_s_max.
+Qed.
+
+Lemma filter_strip_length (q : rec * key * (str * key) -> bool) L1 L2 :
+  map strip L1 = map strip L2 ->
+  length (filter (fun l => q (strip l)) L1) = length (filter (fun l => q (strip l)) L2).
+Proof.
+  intros E.
+  rewrite <- (map_length strip (filter _ L1)), <- (map_length strip (filter _ L2)).
+  rewrite <- !filter_map_comm. now rewrite E.
+Qed.
+
+(* Batch invariance outside the finding: two runs whose ledgers file every
+   record under the same keys end in the same state up to the on-disk time
+   resolution, and in the very same state when neither restarted. *)
+Lemma invariance bs1 bs2 :
+  batches_ok bs1 -> batches_ok bs2 ->
+  map strip (ledger bs1) = map strip (ledger bs2) ->
+  state_equiv_fl (run bs1) (run bs2) /\
+  (no_restart bs1 -> no_restart bs2 -> state_equiv (run bs1) (run bs2)).
+Proof.
+  intros H1 H2 E. split.
+  - pose proof (strip_floor _ _ E (lok_ledger bs1) (lok_ledger bs2)) as EF.
+    unfold state_equiv_fl. refine (conj _ (conj _ (conj _ (conj _ _)))); intros k.
+    + rewrite (final_E bs1 H1), (final_E bs2 H2), !fl_summary.
+      rewrite <- !(filter_map_comm floor_l (fun l => key_eqb (l_ekey l) k)). now rewrite EF.
+    + destruct k as [k st]. rewrite (final_ES bs1 H1), (final_ES bs2 H2). f_equal.
+      apply (filter_strip_length
+               (fun t => key_eqb (snd (fst t)) k && (r_status (fst (fst t)) =? st))). exact E.
+    + rewrite (final_C bs1 H1), (final_C bs2 H2), !fl_summary.
+      rewrite <- !(filter_map_comm floor_l (fun l => ckey_eqb (l_ckey l) k)). now rewrite EF.
+    + destruct k as [k st]. rewrite (final_CS bs1 H1), (final_CS bs2 H2). f_equal.
+      apply (filter_strip_length
+               (fun t => ckey_eqb (snd t) k && (r_status (fst (fst t)) =? st))). exact E.
+    + rewrite (final_I bs1 H1), (final_I bs2 H2), !floor_omax.
+      assert (M : forall L, map floor_s (map l_ts (filter (fun l => key_eqb (icpt_key (l_rec l)) k) L))
+                  = map l_ts (filter (fun l => key_eqb (icpt_key (l_rec l)) k) (map floor_l L))).
+      { intros L. rewrite (filter_map_comm floor_l (fun l => key_eqb (icpt_key (l_rec l)) k)).
+        now rewrite !map_map. }
+      rewrite !M. now rewrite EF.
+  - intros N1 N2.
+    pose proof (strip_exact _ _ E (lexact_ledger bs1 N1) (lexact_ledger bs2 N2)) as EL.
+    apply (sem_equiv _ _ (ledger bs1)).
+    + apply wf_nodup, wf_run; assumption.
+    + apply wf_nodup, wf_run; assumption.
+    + now apply refinement.
+    + rewrite EL. now apply refinement.
+Qed.
+
+(* a normaliser that never changes: the batching is irrelevant, the result is
+   the one-shot extraction of the whole stream *)
+Lemma ledger_fixed f g bs : forall L,
+  Forall (fun b => b_restart b = false /\ b_conv b = false /\
+                   (forall u, b_nxE b u = f u) /\ (forall u, b_nxC b u = g u)) bs ->
+  ledger_from L bs = L ++ map (fresh f g) (all_accepted bs).
+Proof.
+  unfold ledger_from, all_accepted.
+  induction bs as [|b bs IH]; intros L H; cbn; [now rewrite app_nil_r|].
+  inversion H as [|? ? (Hr & Hc & HE & HC) Hbs]; subst.
+  rewrite IH by assumption. unfold lstep. rewrite Hr, Hc.
+  assert (M : map (fresh (b_nxE b) (b_nxC b)) (accepted (b_recs b))
+              = map (fresh f g) (accepted (b_recs b))).
+  { apply map_ext. intros r. unfold fresh, ep. now rewrite HE, HC. }
+  destruct (b_recs b) as [|r rs] eqn:Eb.
+  - reflexivity.
+  - rewrite M, map_app, app_assoc. reflexivity.
+Qed.
+
+Lemma invariance_fixed f g bs :
+  batches_ok bs ->
+  Forall (fun b => b_restart b = false /\ b_conv b = false /\
+                   (forall u, b_nxE b u = f u) /\ (forall u, b_nxC b u = g u)) bs ->
+  state_equiv (run bs) (extract f g (all_accepted bs)).
+Proof.
+  intros Hok H.
+  apply (sem_equiv _ _ (ledger bs)).
+  - now apply wf_nodup, wf_run.
+  - apply nodup_extract.
+  - now apply refinement.
+  - unfold ledger. rewrite (ledger_fixed f g bs []) by assumption. apply sem_extract.
+Qed.
+
+(* ---------------------------------------------------------------------- *)
+(* Part 11: what re-keying and the disk round trip preserve, stated on their own *)
+
+Lemma rekey_state_preserves rkE rkC s :
+  (* every new entry is the Combine of the old entries sent to its key *)
+  (forall k', mfind key_eqb k' (sE (rekey_state rkE rkC s))
+              = psum acomb (fun k => key_eqb (on_url rkE k) k') (sE s)) /\
+  (* totals *)
+  agg_total (sE (rekey_state rkE rkC s)) = agg_total (sE s) /\
+  agg_total (sC (rekey_state rkE rkC s)) = agg_total (sC s) /\
+  (forall st, sum_where (fun ks => snd ks =? st) (sES (rekey_state rkE rkC s))
+              = sum_where (fun ks => snd ks =? st) (sES s)) /\
+  (forall st, sum_where (fun ks => snd ks =? st) (sCS (rekey_state rkE rkC s))
+              = sum_where (fun ks => snd ks =? st) (sCS s)) /\
+  (* per method and per consumer tag *)
+  (forall m, count_where (fun k => str_eqb (fst k) m) (sE (rekey_state rkE rkC s))
+             = count_where (fun k => str_eqb (fst k) m) (sE s)) /\
+  (forall t, count_where (fun ck => str_eqb (fst ck) t) (sC (rekey_state rkE rkC s))
+             = count_where (fun ck => str_eqb (fst ck) t) (sC s)) /\
+  sI (rekey_state rkE rkC s) = sI s.
+Proof.
+  unfold rekey_state; cbn [sE sES sC sCS sI].
+  repeat apply conj.
+  - intros k'. rewrite (mfind_psum key_eqb acomb eqdec_key) by (apply NoDup_rekey, eqdec_key).
+    now rewrite (psum_rekey key_eqb acomb eqdec_key acomb_comm acomb_assoc).
+  - unfold agg_total. now rewrite (psum_rekey key_eqb acomb eqdec_key acomb_comm acomb_assoc).
+  - unfold agg_total. now rewrite (psum_rekey ckey_eqb acomb eqdec_ckey acomb_comm acomb_assoc).
+  - intros st. rewrite !sum_where_psum.
+    now rewrite (psum_rekey skey_eqb Z.add eqdec_skey Z.add_comm Zadd_assoc').
+  - intros st. rewrite !sum_where_psum.
+    now rewrite (psum_rekey cskey_eqb Z.add eqdec_cskey Z.add_comm Zadd_assoc').
+  - intros m. rewrite !count_where_psum.
+    now rewrite (psum_rekey key_eqb acomb eqdec_key acomb_comm acomb_assoc).
+  - intros t. rewrite !count_where_psum.
+    now rewrite (psum_rekey ckey_eqb acomb eqdec_ckey acomb_comm acomb_assoc).
+  - reflexivity.
+Qed.
+
+Lemma fl_state_totals s :
+  agg_total (sE (fl_state s)) = option_map fl (agg_total (sE s)) /\
+  agg_total (sC (fl_state s)) = option_map fl (agg_total (sC s)) /\
+  (forall k, mfind key_eqb k (sE (fl_state s)) = option_map fl (mfind key_eqb k (sE s))) /\
+  (forall k, mfind ckey_eqb k (sC (fl_state s)) = option_map fl (mfind ckey_eqb k (sC s))) /\
+  (forall k, mfind key_eqb k (sI (fl_state s)) = option_map floor_s (mfind key_eqb k (sI s))) /\
+  sES (fl_state s) = sES s /\ sCS (fl_state s) = sCS s.
+Proof.
+  unfold fl_state; cbn [sE sES sC sCS sI]. unfold agg_total.
+  assert (F : forall (K V : Type) (e : K -> K -> bool) (g : V -> V) k (m : list (K * V)),
+             mfind e k (map (fun x => (fst x, g (snd x))) m) = option_map g (mfind e k m)).
+  { intros K V e g k m. induction m as [|[k' v'] t IH]; cbn; [reflexivity|].
+    destruct (e k' k); [reflexivity | exact IH]. }
+  repeat apply conj; try reflexivity.
+  - apply psum_map_val. exact fl_acomb.
+  - apply psum_map_val. exact fl_acomb.
+  - intros k. apply F.
+  - intros k. apply F.
+  - intros k. apply F.
+Qed.
+
+
+Lemma map_id_in {A : Type} (f : A -> A) (l : list A) :
+  Forall (fun x => f x = x) l -> map f l = l.
+Proof.
+  induction l as [|a l IH]; intros H; cbn; [reflexivity|].
+  inversion H; subst. now rewrite IH by assumption; f_equal.
+Qed.
+
+Lemma fl_state_aligned s : aligned_state s -> fl_state s = s.
+Proof.
+  intros (HE & HC & HI). unfold fl_state. destruct s as [E ES C CS I]; cbn in *. f_equal.
+  - apply map_id_in. eapply Forall_impl; [|exact HE]. intros [k a] [H1 H2]; cbn in *.
+    f_equal. unfold fl. rewrite (floor_s_aligned _ H1), (floor_s_aligned _ H2). now destruct a.
+  - apply map_id_in. eapply Forall_impl; [|exact HC]. intros [k a] [H1 H2]; cbn in *.
+    f_equal. unfold fl. rewrite (floor_s_aligned _ H1), (floor_s_aligned _ H2). now destruct a.
+  - apply map_id_in. eapply Forall_impl; [|exact HI]. intros [k t] H; cbn in *.
+    now rewrite (floor_s_aligned _ H).
 Qed.
